@@ -106,6 +106,8 @@ def run(ctx):
     for bld in ('optim', 'debug'):
         gi = [i for i, c in enumerate(cases) if c[2] == bld and len(c[0]) < 30000 and int(c[0].split()[1]) < 1000][:: (9 if ctx.tier != 'thorough' else 3)]
         vlib.guard_pass(ctx, exes[bld], [cases[i][0] for i in gi], [impl[i] for i in gi], 'polynomial operations, %s build' % bld, {'build': bld})
+        si = sorted(set(gi[::3]) | set([i for i, c in enumerate(cases) if c[2] == bld and len(c[0]) < 60000 and int(c[0].split()[2]) >= 1024][:12]))
+        vlib.stack_pass(ctx, exes[bld], [cases[i][0] for i in si], [impl[i] for i in si], 'polynomial operations, %s build' % bld, {'build': bld})
     mlines = sorted(set(c[1] for c in cases if c[1] is not None))
     mo = dict(zip(mlines, vlib.run_model(mlines, 'fast', timeout=1800)))
     xs = [l for l in mlines if len(l) < 1500][:: 40]
@@ -153,7 +155,7 @@ def replay(ctx, data):
     if data.get('tool') == 'allocfail': return vlib.allocfail_replay(data)
     b = data.get('build', 'optim')
     exe = vlib.build_harness('drv.cpp', vlib.build_lib(b), 'spqlios-fma', b)
-    if data.get('guard'): return vlib.guard_replay(exe, data)
+    if data.get('guard') or data.get('stack_kib'): return vlib.guard_replay(exe, data)
     o = vlib.run_lines(exe, [data['case']])[0]
     print('case:', data['case'][:300], '\nimplementation now:', o[:400], '\nrecorded:', str(data.get('impl'))[:400])
     return 0
